@@ -45,10 +45,9 @@ func DurationValueWithin(d time.Duration) Value {
 		if returnEarly {
 			return equal, ok
 		}
-		if xd < yd {
-			return yd-xd <= d, true
-		}
-		return xd-yd <= d, true
+		sec, nanos := durationGap(xd, yd)
+		dSec, dNanos := int64(d/time.Second), int64(d%time.Second)
+		return sec < dSec || (sec == dSec && nanos <= dNanos), true
 	}
 }
 
@@ -60,10 +59,9 @@ func DurationValueWithinP(p float32) Value {
 			return equal, ok
 		}
 		// the difference is at most p percent of the smaller of the two magnitudes
-		diff, ax, ay := xd-yd, xd, yd
-		if diff < 0 {
-			diff = -diff
-		}
+		sec, nanos := durationGap(xd, yd)
+		diff := float64(sec)*1e9 + float64(nanos)
+		ax, ay := durationNanos(xd), durationNanos(yd)
 		if ax < 0 {
 			ax = -ax
 		}
@@ -73,11 +71,34 @@ func DurationValueWithinP(p float32) Value {
 		if ay < ax {
 			ax = ay
 		}
-		return float64(diff) <= float64(p)/100*float64(ax), true
+		return diff <= float64(p)/100*ax, true
 	}
 }
 
-func cmpDuration(fd pref.FieldDescriptor, x, y pref.Value) (xd, yd time.Duration, equal, ok, returnEarly bool) {
+// durationGap is |x - y| as whole seconds and nanoseconds, computed on the messages' own fields:
+// time.Duration covers about 292 years, a durationpb.Duration about 10000, and AsDuration saturates.
+func durationGap(x, y *durationpb.Duration) (sec, nanos int64) {
+	sec = x.GetSeconds() - y.GetSeconds()
+	nanos = int64(x.GetNanos()) - int64(y.GetNanos())
+	if sec < 0 || (sec == 0 && nanos < 0) {
+		sec, nanos = -sec, -nanos
+	}
+	for nanos < 0 {
+		sec--
+		nanos += 1e9
+	}
+	for nanos >= 1e9 {
+		sec++
+		nanos -= 1e9
+	}
+	return sec, nanos
+}
+
+func durationNanos(d *durationpb.Duration) float64 {
+	return float64(d.GetSeconds())*1e9 + float64(d.GetNanos())
+}
+
+func cmpDuration(fd pref.FieldDescriptor, x, y pref.Value) (xd, yd *durationpb.Duration, equal, ok, returnEarly bool) {
 	if fd.Kind() != pref.MessageKind {
 		return xd, yd, false, false, true
 	}
@@ -94,10 +115,6 @@ func cmpDuration(fd pref.FieldDescriptor, x, y pref.Value) (xd, yd time.Duration
 		return xd, yd, mx.IsValid() == my.IsValid(), true, true
 	}
 
-	xd, yd = toDuration(mx), toDuration(my)
+	xd, yd = mx.Interface().(*durationpb.Duration), my.Interface().(*durationpb.Duration)
 	return xd, yd, false, false, false
-}
-
-func toDuration(x pref.Message) time.Duration {
-	return x.Interface().(*durationpb.Duration).AsDuration()
 }
